@@ -18,7 +18,8 @@ RULE = ('Zone objects of every kind the library produces: tzutc, tzoffset (incl.
         'abbreviation must be the model\'s at u.  The VTIMEZONE zone\'s locked component cache is additionally driven by 2-3 tasks under the '
         'baton scheduler (all single-preemption plans, PCT and random schedules): every answer must equal that of a freshly '
         'parsed zone.  Non-trivial = instant within 3 h of an offset change; distinct = (zone, '
-        'transition index, probe offset).')
+        'transition index, probe offset).'
+        ' Zoo additions: sub-minute (+-hhmmss) VTIMEZONE / tzrange zones, components without TZNAME, single-component definitions, one-off STANDARD components that change the standard offset (truth = equivalent TZif data), TZif data with 200 types; after the last transition of synthetic data the last type is claimed; a second look at datetimes converted earlier must give the first answers.')
 ASSUMPTIONS = ['truth models: vf/oracles/tzif_ref.py, vf/oracles/posix_tz_ref.py (self-tested; POSIX model also compared with glibc in C08)',
                'tzfile: truth claimed up to the last transition of the version-1 block; beyond it only self-consistency',
                'synthetic TZif data stay within PEP 495\'s assumption (a wall time has at most two pre-images)',
